@@ -24,7 +24,6 @@ Proof.
     repeat match goal with
            | H : _ && _ = true |- _ => apply andb_true_iff in H; destruct H
            | H : (_ <=? _) = true |- _ => apply Nat.leb_le in H
-           | H : (_ <? _) = true |- _ => apply Nat.ltb_lt in H
            | H : (_ =? _) = true |- _ => apply Nat.eqb_eq in H
            end; try discriminate;
     rewrite ?andb_true_iff, ?Nat.leb_le, ?Nat.ltb_lt, ?Nat.eqb_eq; try split; auto; try lia.
@@ -56,8 +55,9 @@ Proof.
     (eapply upd_reach; [eassumption|]);
     match goal with n : node |- _ => destruct n as [sn rn]; simpl in * end;
     destruct sn; simpl in *; try discriminate; unfold node_reachb; simpl;
-    rewrite ?Nat.leb_refl, ?Nat.ltb_lt; auto; try lia;
-    match goal with |- context [if ?b then _ else _] => destruct b; simpl; rewrite ?Nat.leb_refl; auto end.
+    rewrite ?Nat.leb_refl; auto;
+    try (apply Nat.leb_le; lia);
+    try (match goal with |- context [if ?b then _ else _] => destruct b; simpl; rewrite ?Nat.leb_refl; auto end).
 Qed.
 
 Lemma astep_reach : forall st l st', astep st l = Some st' -> tbl_reachb (tbl (sc st)) (tbl (sc st')) = true.
